@@ -188,21 +188,28 @@ def pwc_predictions(ctx):
                 add = rng.choice(n, size=int(rng.integers(1, 3)), replace=False)
                 yo = rng.integers(0, 2, size=len(add)).astype(float) if rng.random() < 0.5 else None
                 w.partial_fit(add, y=yo, use_base_clf=bool(rng.random() < 0.4))
-            P = w.predict_proba(allidx)
-            F = w.predict_freq(allidx) if hasattr(w, "predict_freq") and not speed else None
+            # prediction indices in any order and with repetitions (row i of the result belongs to the i-th index given)
+            pidx = allidx if h % 3 == 0 else (rng.permutation(n) if h % 3 == 1 else rng.integers(0, n, size=n + 2))
+            P = w.predict_proba(pidx)
+            F = w.predict_freq(pidx) if hasattr(w, "predict_freq") and not speed else None
         except Exception as e:
             ctx.violation("IndexClassifierWrapper[PWC]", "exception", repr(e), {"kernel": repr(kern), "speed_up": speed}, what=f"wrapper raised {err_class(e)}")
             continue
         ref = clone(clf).fit(X[w.idx_], w.y_, w.sample_weight_)
-        Pr = ref.predict_proba(X)
+        Pr = ref.predict_proba(X)[pidx]
         ctx.count("pwc_predictions")
+        if np.shape(P) != np.shape(Pr):
+            ctx.violation("IndexClassifierWrapper[PWC]", "prediction_differs", f"predict_proba for {len(pidx)} indices has shape {np.shape(P)}",
+                          {"X": X.tolist(), "y": [None if np.isnan(v) else v for v in y], "kernel": repr(kern), "speed_up": speed, "predict_indices": np.asarray(pidx).tolist()},
+                          what=f"IndexClassifierWrapper around ParzenWindowClassifier (use_speed_up={speed}): predict_proba returns {np.shape(P)[0]} rows for {len(pidx)} indices (unsorted / repeated indices)")
+            continue
         if speed:
             ctx.nontriv(("pwc", X.tobytes(), y.tobytes(), repr(kern), uniq))
         if not np.allclose(P, Pr, rtol=1e-9, atol=1e-12):
             ctx.violation("IndexClassifierWrapper[PWC]", "prediction_differs",
                           f"max |diff| = {np.max(np.abs(P - Pr)):.3g} (kernel {kern}, use_speed_up={speed})",
                           {"X": X.tolist(), "y": [None if np.isnan(v) else v for v in y], "kernel": repr(kern), "speed_up": speed,
-                           "idx_": w.idx_.tolist(), "y_": [None if np.isnan(v) else v for v in np.asarray(w.y_, dtype=float)]},
+                           "idx_": w.idx_.tolist(), "y_": [None if np.isnan(v) else v for v in np.asarray(w.y_, dtype=float)], "predict_indices": np.asarray(pidx).tolist()},
                           what=f"IndexClassifierWrapper around ParzenWindowClassifier (use_speed_up={speed}, {kern}) predicts differently from a fresh clone trained on the implied data")
 
 
